@@ -36,7 +36,7 @@ def run(ctx):
         "all three paths with the same fields and ID); in room versions 1-5 the event must build and round-trip",
     ]
     ctx.exhaustive = True
-    ops = ("7 operations, behaviours of length 3, 2 list/depth/unsigned variants" if ctx.tier == "quick" else
+    ops = ("7 operations, behaviours of length 3 on variant 1 and of length 2 on variant 2 (proto-event with unsigned, empty lists)" if ctx.tier == "quick" else
            "7 operations with behaviours of length 4 (2 variants) and all 9 operations with behaviours of length 2 (4 variants)")
     ctx.notes["rule"] = (
         "every behaviour of EventIdentity.tla: 16 room versions x 12 event shapes (+2 m.room.create-typed non-create events in domainless versions; 7 protected types, message, empty "
@@ -44,7 +44,7 @@ def run(ctx):
         "prev/auth/depth/unsigned variants x (%s) and x 17 sibling fields after 0/1 operation; family num: 16 room versions x %s shapes x 11 number classes in the content x behaviours of length %s; distinct = distinct "
         "(family, ID format, redaction algorithm, domainless, type, operation sequence, redacted pattern, sibling field, "
         "number class)" % ((ops,) + (("3", "2") if ctx.tier == "quick" else ("6", "3"))))
-    fams = ["ops", "num", "sib"] if ctx.tier == "quick" else ["ops", "ops2", "num", "sib"]
+    fams = ["ops", "opsb", "num", "sib"] if ctx.tier == "quick" else ["ops", "ops2", "num", "sib"]
     ctx.notes["constants"] = ", ".join("EventIdentity_gen_%s_%s.cfg" % (f, ctx.tier) for f in fams)
     for fam in fams:
         r = ctx.tlc("EventIdentity_gen", "EventIdentity_gen_%s_%s.cfg" % (fam, ctx.tier), timeout=2400)
